@@ -14,38 +14,55 @@ def badT (w : Option Str → Bool) : Action → Bool
   | .updateTextAfter _ t => !w t
   | _ => false
 
+/-- an insert or rename action whose tag fails the test -/
+def badTag (w : Str → Bool) : Action → Bool
+  | .insertNode _ tag _ => !w tag
+  | .renameNode _ tag => !w tag
+  | _ => false
+
+/-- a test that attribute, move and delete actions pass -/
+structure Neutral (bad : Action → Bool) : Prop where
+  attr : ∀ p a, IsAttrOn p a → bad a = false
+  move : ∀ a b c, bad (.moveNode a b c) = false
+  del : ∀ p, bad (.deleteNode p) = false
+
+/-- what the visit of a right node with payload `x` may emit passes the test -/
+structure Fits (bad : Action → Bool) (x : Payload) : Prop where
+  txt : ∀ path, bad (.updateTextIn path x.text) = false
+  tail : ∀ path, bad (.updateTextAfter path x.tail) = false
+  ren : ∀ path, bad (.renameNode path x.tag) = false
+  ins : ∀ path pos, bad (.insertNode path x.tag pos) = false
+  insc : ∀ path pos, bad (.insertComment path pos x.text) = false
+
 /-- no bad action is added -/
-def NB (w : Option Str → Bool) (out out' : List Action) : Prop :=
-  (∀ a ∈ out, badT w a = false) → ∀ a ∈ out', badT w a = false
+def NB (bad : Action → Bool) (out out' : List Action) : Prop :=
+  (∀ a ∈ out, bad a = false) → ∀ a ∈ out', bad a = false
 
-theorem NB.refl (w : Option Str → Bool) (out : List Action) : NB w out out := fun h => h
+theorem NB.refl (bad : Action → Bool) (out : List Action) : NB bad out out := fun h => h
 
-theorem NB.trans {w : Option Str → Bool} {a b c : List Action} (h1 : NB w a b) (h2 : NB w b c) : NB w a c :=
+theorem NB.trans {bad : Action → Bool} {a b c : List Action} (h1 : NB bad a b) (h2 : NB bad b c) : NB bad a c :=
   fun h => h2 (h1 h)
 
-theorem nb_cons (w : Option Str → Bool) (out : List Action) (a : Action) (ha : badT w a = false) :
-    NB w out (a :: out) := by
+theorem nb_cons (bad : Action → Bool) (out : List Action) (a : Action) (ha : bad a = false) :
+    NB bad out (a :: out) := by
   intro h b hb
   simp only [List.mem_cons] at hb
   rcases hb with rfl | hb
   · exact ha
   · exact h b hb
 
-theorem attr_not_bad (w : Option Str → Bool) (p : Path) (a : Action) (h : IsAttrOn p a) : badT w a = false := by
-  cases a <;> simp_all [IsAttrOn, badT]
-
-theorem updateAttrs_nb (w : Option Str → Bool) (ign : List Str) (path : Path) (las ras : Attrs) (out : List Action)
-    (hr : (keys ras).Nodup) : NB w out (updateAttrs ign path las ras out).2 := by
+theorem updateAttrs_nb (bad : Action → Bool) (hn : Neutral bad) (ign : List Str) (path : Path) (las ras : Attrs) (out : List Action)
+    (hr : (keys ras).Nodup) : NB bad out (updateAttrs ign path las ras out).2 := by
   obtain ⟨acts, h⟩ := updateAttrs_phase ign path las ras out hr
   rw [h.out_eq]
   intro h0 a ha
   simp only [List.mem_append, List.mem_reverse] at ha
   rcases ha with ha | ha
-  · exact attr_not_bad w path a (h.on a ha).1
+  · exact hn.attr path a (h.on a ha).1
   · exact h0 a ha
 
-theorem updateAttrStep_nb (w : Option Str → Bool) (qn : QName) (ign : List Str) (l : Nat) (x : Payload) (s s' : DState)
-    (hx : (keys x.attrs).Nodup) (h : updateAttrStep qn ign l x s = .ok s') : NB w s.out s'.out := by
+theorem updateAttrStep_nb (bad : Action → Bool) (hn : Neutral bad) (qn : QName) (ign : List Str) (l : Nat) (x : Payload) (s s' : DState)
+    (hx : (keys x.attrs).Nodup) (h : updateAttrStep qn ign l x s = .ok s') : NB bad s.out s'.out := by
   unfold updateAttrStep at h
   split at h
   · cases h
@@ -54,15 +71,15 @@ theorem updateAttrStep_nb (w : Option Str → Bool) (qn : QName) (ign : List Str
     split at h
     · cases h
     · next path hpath =>
-      have := updateAttrs_nb w ign path ln.payload.attrs x.attrs s.out hx
+      have := updateAttrs_nb bad hn ign path ln.payload.attrs x.attrs s.out hx
       generalize updateAttrs ign path ln.payload.attrs x.attrs s.out = res at h this
       obtain ⟨las, out⟩ := res
       simp only [Except.ok.injEq] at h
       subst h
       exact this
 
-theorem updateText_nb (w : Option Str → Bool) (qn : QName) (l : Nat) (x : Payload) (s s' : DState)
-    (hw : w x.text = true ∧ w x.tail = true) (h : updateText qn l x s = .ok s') : NB w s.out s'.out := by
+theorem updateText_nb (bad : Action → Bool) (hn : Neutral bad) (qn : QName) (l : Nat) (x : Payload) (s s' : DState)
+    (hw : Fits bad x) (h : updateText qn l x s = .ok s') : NB bad s.out s'.out := by
   unfold updateText at h
   split at h
   · cases h
@@ -73,21 +90,21 @@ theorem updateText_nb (w : Option Str → Bool) (qn : QName) (l : Nat) (x : Payl
     · next path hpath =>
       simp only [Except.ok.injEq] at h
       subst h
-      have b1 : badT w (.updateTextIn path x.text) = false := by simp [badT, hw.1]
-      have b2 : badT w (.updateTextAfter path x.tail) = false := by simp [badT, hw.2]
+      have b1 := hw.txt path
+      have b2 := hw.tail path
       unfold tailStep textStep
       by_cases h1 : ln.payload.text ≠ x.text <;> by_cases h2 : ln.payload.tail ≠ x.tail
       · rw [if_pos h1, if_pos h2]
-        exact (nb_cons w s.out _ b1).trans (nb_cons w _ _ b2)
+        exact (nb_cons bad s.out _ b1).trans (nb_cons bad _ _ b2)
       · rw [if_pos h1, if_neg h2]
-        exact nb_cons w s.out _ b1
+        exact nb_cons bad s.out _ b1
       · rw [if_neg h1, if_pos h2]
-        exact nb_cons w s.out _ b2
+        exact nb_cons bad s.out _ b2
       · rw [if_neg h1, if_neg h2]
-        exact NB.refl w s.out
+        exact NB.refl bad s.out
 
-theorem renameStep_nb (w : Option Str → Bool) (qn : QName) (l : Nat) (x : Payload) (s s' : DState)
-    (h : renameStep qn l x s = .ok s') : NB w s.out s'.out := by
+theorem renameStep_nb (bad : Action → Bool) (hn : Neutral bad) (qn : QName) (l : Nat) (x : Payload) (s s' : DState)
+    (hw : Fits bad x) (h : renameStep qn l x s = .ok s') : NB bad s.out s'.out := by
   unfold renameStep at h
   split at h
   · cases h
@@ -98,13 +115,13 @@ theorem renameStep_nb (w : Option Str → Bool) (qn : QName) (l : Nat) (x : Payl
       · next path hpath =>
         simp only [pure, Except.pure, Except.ok.injEq] at h
         subst h
-        exact nb_cons w s.out _ rfl
+        exact nb_cons bad s.out _ (hw.ren _)
     · simp only [pure, Except.pure, Except.ok.injEq] at h
       subst h
-      exact NB.refl w s.out
+      exact NB.refl bad s.out
 
-theorem insertStep_nb (w : Option Str → Bool) (qn : QName) (R x : Tree) (lt : Option Nat) (s s' : DState) (l : Nat)
-    (h : insertStep qn R x lt s = .ok (l, s')) : NB w s.out s'.out := by
+theorem insertStep_nb (bad : Action → Bool) (hn : Neutral bad) (qn : QName) (R x : Tree) (lt : Option Nat) (s s' : DState) (l : Nat)
+    (hw : Fits bad x.payload) (h : insertStep qn R x lt s = .ok (l, s')) : NB bad s.out s'.out := by
   cases lt with
   | none =>
     simp only [insertStep, bind, Except.bind, throw, throwThe, MonadExceptOf.throw] at h
@@ -118,11 +135,11 @@ theorem insertStep_nb (w : Option Str → Bool) (qn : QName) (R x : Tree) (lt : 
       · next tp htp =>
         cases hk : x.payload.kind <;> simp only [hk, Except.ok.injEq, Prod.mk.injEq] at h <;>
           obtain ⟨_, rfl⟩ := h
-        · exact nb_cons w s.out _ rfl
-        · exact nb_cons w s.out _ rfl
+        · exact nb_cons bad s.out _ (hw.ins _ _)
+        · exact nb_cons bad s.out _ (hw.insc _ _)
 
-theorem moveStep_nb (w : Option Str → Bool) (qn : QName) (R x : Tree) (l : Nat) (lt : Option Nat) (s s' : DState)
-    (h : moveStep qn R x l lt s = .ok s') : NB w s.out s'.out := by
+theorem moveStep_nb (bad : Action → Bool) (hn : Neutral bad) (qn : QName) (R x : Tree) (l : Nat) (lt : Option Nat) (s s' : DState)
+    (h : moveStep qn R x l lt s = .ok s') : NB bad s.out s'.out := by
   unfold moveStep at h
   simp only at h
   split at h
@@ -144,17 +161,17 @@ theorem moveStep_nb (w : Option Str → Bool) (qn : QName) (R x : Tree) (l : Nat
               · cases h
               · simp only [Except.ok.injEq] at h
                 subst h
-                exact nb_cons w s.out _ rfl
+                exact nb_cons bad s.out _ (hn.move _ _ _)
   · simp only [pure, Except.pure, Except.ok.injEq] at h
     subst h
-    exact NB.refl w _
+    exact NB.refl bad _
 
-theorem alignMoves_nb (w : Option Str → Bool) (qn : QName) (R : Tree) (l : Nat) (lcs : List Nat) (s s' : DState)
-    (h : alignMoves qn R l lcs s = .ok s') : NB w s.out s'.out := by
+theorem alignMoves_nb (bad : Action → Bool) (hn : Neutral bad) (qn : QName) (R : Tree) (l : Nat) (lcs : List Nat) (s s' : DState)
+    (h : alignMoves qn R l lcs s = .ok s') : NB bad s.out s'.out := by
   induction lcs generalizing s with
   | nil =>
     simp only [alignMoves, Except.ok.injEq] at h
-    subst h; exact NB.refl w _
+    subst h; exact NB.refl bad _
   | cons lc rest ih =>
     simp only [alignMoves] at h
     split at h
@@ -180,38 +197,38 @@ theorem alignMoves_nb (w : Option Str → Bool) (qn : QName) (R : Tree) (l : Nat
                 · split at h
                   · cases h
                   · have h1 := ih _ h
-                    exact (nb_cons w s.out _ rfl).trans h1
+                    exact (nb_cons bad s.out _ (hn.move _ _ _)).trans h1
 
-theorem alignChildren_nb (w : Option Str → Bool) (qn : QName) (R : Tree) (l : Nat) (x : Tree) (s s' : DState)
-    (h : alignChildren qn R l x s = .ok s') : NB w s.out s'.out := by
+theorem alignChildren_nb (bad : Action → Bool) (hn : Neutral bad) (qn : QName) (R : Tree) (l : Nat) (x : Tree) (s s' : DState)
+    (h : alignChildren qn R l x s = .ok s') : NB bad s.out s'.out := by
   unfold alignChildren at h
   split at h
   · cases h
   · simp only at h
     split at h
     · simp only [Except.ok.injEq] at h
-      subst h; exact NB.refl w _
+      subst h; exact NB.refl bad _
     · split at h
-      · have := alignMoves_nb w qn R l _ _ s' h
+      · have := alignMoves_nb bad hn qn R l _ _ s' h
         exact this
       · cases h
 
-theorem visitTail_nb (w : Option Str → Bool) (qn : QName) (R x : Tree) (l : Nat) (s1 s' : DState)
-    (hw : w x.payload.text = true ∧ w x.payload.tail = true)
-    (h : visitTail qn R l x s1 = .ok s') : NB w s1.out s'.out := by
+theorem visitTail_nb (bad : Action → Bool) (hn : Neutral bad) (qn : QName) (R x : Tree) (l : Nat) (s1 s' : DState)
+    (hw : Fits bad x.payload)
+    (h : visitTail qn R l x s1 = .ok s') : NB bad s1.out s'.out := by
   unfold visitTail at h
   simp only [bind, Except.bind] at h
   split at h
   · cases h
   · next s2 hs2 =>
-    have a := alignChildren_nb w qn R l x s1 s2 hs2
+    have a := alignChildren_nb bad hn qn R l x s1 s2 hs2
     split at h
-    · next l' hl' => exact a.trans (updateText_nb w qn l' x.payload s2 s' hw h)
+    · next l' hl' => exact a.trans (updateText_nb bad hn qn l' x.payload s2 s' hw h)
     · cases h
 
-theorem visit_nb (w : Option Str → Bool) (qn : QName) (cfg : Cfg) (R x : Tree) (s s' : DState)
-    (hx : (keys x.payload.attrs).Nodup) (hw : w x.payload.text = true ∧ w x.payload.tail = true)
-    (h : visit qn cfg R x s = .ok s') : NB w s.out s'.out := by
+theorem visit_nb (bad : Action → Bool) (hn : Neutral bad) (qn : QName) (cfg : Cfg) (R x : Tree) (s s' : DState)
+    (hx : (keys x.payload.attrs).Nodup) (hw : Fits bad x.payload)
+    (h : visit qn cfg R x s = .ok s') : NB bad s.out s'.out := by
   unfold visit at h
   simp only [bind, Except.bind] at h
   split at h
@@ -219,51 +236,51 @@ theorem visit_nb (w : Option Str → Bool) (qn : QName) (cfg : Cfg) (R x : Tree)
     · cases h
     · next v hv =>
       obtain ⟨l, s1⟩ := v
-      have a := insertStep_nb w qn R x _ s s1 l hv
+      have a := insertStep_nb bad hn qn R x _ s s1 l hw hv
       simp only at h
       split at h
       · cases h
       · next s2 hs2 =>
-        have b := updateAttrStep_nb w qn cfg.ignored l x.payload s1 s2 hx hs2
-        have c := visitTail_nb w qn R x l s2 s' hw h
+        have b := updateAttrStep_nb bad hn qn cfg.ignored l x.payload s1 s2 hx hs2
+        have c := visitTail_nb bad hn qn R x l s2 s' hw h
         exact (a.trans b).trans c
   · next l hl =>
     split at h
     · cases h
     · next s1 hs1 =>
-      have a := moveStep_nb w qn R x l _ s s1 hs1
+      have a := moveStep_nb bad hn qn R x l _ s s1 hs1
       split at h
       · cases h
       · next s2 hs2 =>
-        have b := renameStep_nb w qn l x.payload s1 s2 hs2
+        have b := renameStep_nb bad hn qn l x.payload s1 s2 hw hs2
         split at h
         · cases h
         · next s3 hs3 =>
-          have c := updateAttrStep_nb w qn cfg.ignored l x.payload s2 s3 hx hs3
-          have d := visitTail_nb w qn R x l s3 s' hw h
+          have c := updateAttrStep_nb bad hn qn cfg.ignored l x.payload s2 s3 hx hs3
+          have d := visitTail_nb bad hn qn R x l s3 s' hw h
           exact ((a.trans b).trans c).trans d
 
-theorem visitAll_nb (w : Option Str → Bool) (qn : QName) (cfg : Cfg) (R : Tree) (xs : List Tree) (s s' : DState)
-    (hx : ∀ x ∈ xs, (keys x.payload.attrs).Nodup ∧ w x.payload.text = true ∧ w x.payload.tail = true)
-    (h : visitAll qn cfg R xs s = .ok s') : NB w s.out s'.out := by
+theorem visitAll_nb (bad : Action → Bool) (hn : Neutral bad) (qn : QName) (cfg : Cfg) (R : Tree) (xs : List Tree) (s s' : DState)
+    (hx : ∀ x ∈ xs, (keys x.payload.attrs).Nodup ∧ Fits bad x.payload)
+    (h : visitAll qn cfg R xs s = .ok s') : NB bad s.out s'.out := by
   induction xs generalizing s with
   | nil =>
     simp only [visitAll, Except.ok.injEq] at h
-    subst h; exact NB.refl w _
+    subst h; exact NB.refl bad _
   | cons x xs ih =>
     simp only [visitAll, bind, Except.bind] at h
     split at h
     · cases h
     · next s1 hs1 =>
       have hx0 := hx x (by simp)
-      exact (visit_nb w qn cfg R x s s1 hx0.1 hx0.2 hs1).trans (ih s1 (fun y hy => hx y (by simp [hy])) h)
+      exact (visit_nb bad hn qn cfg R x s s1 hx0.1 hx0.2 hs1).trans (ih s1 (fun y hy => hx y (by simp [hy])) h)
 
-theorem deleteAll_nb (w : Option Str → Bool) (qn : QName) (ls : List Nat) (s s' : DState)
-    (h : deleteAll qn ls s = .ok s') : NB w s.out s'.out := by
+theorem deleteAll_nb (bad : Action → Bool) (hn : Neutral bad) (qn : QName) (ls : List Nat) (s s' : DState)
+    (h : deleteAll qn ls s = .ok s') : NB bad s.out s'.out := by
   induction ls generalizing s with
   | nil =>
     simp only [deleteAll, Except.ok.injEq] at h
-    subst h; exact NB.refl w _
+    subst h; exact NB.refl bad _
   | cons l ls ih =>
     simp only [deleteAll] at h
     split at h
@@ -273,13 +290,19 @@ theorem deleteAll_nb (w : Option Str → Bool) (qn : QName) (ls : List Nat) (s s
       · cases h
       · split at h
         · cases h
-        · exact (nb_cons w s.out _ rfl).trans (ih _ h)
+        · exact (nb_cons bad s.out _ (hn.del _)).trans (ih _ h)
 
-/-- **Every text of the script passes a test that every text and tail of the right document passes.** -/
-theorem scriptGen_texts (w : Option Str → Bool) (qn : QName) (cfg : Cfg) (L R : Tree) (M : List (Nat × Nat))
+theorem neutral_badT (w : Option Str → Bool) : Neutral (badT w) :=
+  ⟨fun p a h => by cases a <;> simp_all [IsAttrOn, badT], fun _ _ _ => rfl, fun _ => rfl⟩
+
+theorem neutral_badTag (w : Str → Bool) : Neutral (badTag w) :=
+  ⟨fun p a h => by cases a <;> simp_all [IsAttrOn, badTag], fun _ _ _ => rfl, fun _ => rfl⟩
+
+/-- **Every action of the script passes a test that everything a right node can give rise to passes.** -/
+theorem scriptGen_fits (bad : Action → Bool) (hn : Neutral bad) (qn : QName) (cfg : Cfg) (L R : Tree) (M : List (Nat × Nat))
     (fresh : Nat) (script : List Action) (final : Tree)
-    (hR : ∀ x ∈ Tree.bfs R, (keys x.payload.attrs).Nodup ∧ w x.payload.text = true ∧ w x.payload.tail = true)
-    (h : scriptGen qn cfg L R M fresh = .ok (script, final)) : ∀ a ∈ script, badT w a = false := by
+    (hR : ∀ x ∈ Tree.bfs R, (keys x.payload.attrs).Nodup ∧ Fits bad x.payload)
+    (h : scriptGen qn cfg L R M fresh = .ok (script, final)) : ∀ a ∈ script, bad a = false := by
   unfold scriptGen at h
   simp only [bind, Except.bind, pure, Except.pure] at h
   split at h
@@ -290,8 +313,8 @@ theorem scriptGen_texts (w : Option Str → Bool) (qn : QName) (cfg : Cfg) (L R 
     · next s2 hs2 =>
       simp only [Except.ok.injEq, Prod.mk.injEq] at h
       obtain ⟨rfl, _⟩ := h
-      have a := visitAll_nb w qn cfg R (Tree.bfs R) _ s1 hR hs1
-      have b := deleteAll_nb w qn _ s1 s2 hs2
+      have a := visitAll_nb bad hn qn cfg R (Tree.bfs R) _ s1 hR hs1
+      have b := deleteAll_nb bad hn qn _ s1 s2 hs2
       intro x hx
       exact (a.trans b) (fun y hy => by cases hy) x (List.mem_reverse.1 hx)
 
